@@ -82,4 +82,15 @@ theorem aipw_calc_ratio_var_generated (nanv : F) (l : List (Std.Row F)) (py_a py
     cases ha : r.a <;> simp only [Bool.false_eq_true, if_false, if_true, Nat.cast_one, Nat.cast_zero, m1, m0] <;> ring
   simp only [hf]
 
+/-- **Pooling across partitions.**  The term `calculate_joint_estimate` takes the median / mean of is the model's
+    (`pool`): variance of the partition plus the squared distance of its point estimate from the pooled point. -/
+theorem joint_estimate_generated (m : Method) (pts vars : List F) (h : pts.length = vars.length) (hne : pts.length ≠ 0) :
+    pool m pts vars
+      = .ok (center m pts, center m (List.zipWith (fun v p => joint_var_term (center m pts) v p) vars pts)) := by
+  unfold pool
+  simp only [h, ne_eq, not_true_eq_false, if_false]
+  rw [← h]
+  simp only [hne, if_false]
+  rfl
+
 end ZV.P06
